@@ -102,7 +102,10 @@ func (this *Server) setup() error {
 		return err
 	}
 
-	this.nodesManager = raft.NewNodesManager(this.clusterConn, this.zeroGroup)
+	this.nodesManager, err = raft.NewNodesManager(this.clusterConn, this.zeroGroup, sharedGroup.Get("nodes"))
+	if err != nil {
+		return err
+	}
 
 	this.datasetManager, err = storage.NewDatasetManager(sharedGroup.Get("datasets"), this.db, raftTransport, this.clusterConn, this.allocator)
 	if err != nil {
